@@ -157,6 +157,17 @@ SHARED = [
     ("cms_miniaod", q(C_MYMU, [MINI_COLL]), ["BASE", "Select(BASE, lambda ps: ps.Count())"]),
 ]
 
+# what a step can leave behind is looked for by a probe that mentions the same things: half of the probes are drawn among those
+_TAG_WORDS = ["Color", "Kind", "MyJets", "MyFunc", "MyMuons", "RecoMuons", "nKids", "prodVtx", "nBrem", "vf_docker", "s1", "leak", "globalTrack", "isPFMuon", "element_pointer",
+              "link_libraries", "Jets('AntiKt4')", "Muons('muons')", "Muons('slimmedMuons')"]
+
+
+def _tags(text):
+    return {w for w in _TAG_WORDS if w in text}
+
+
+PROBE_TAGS = [_tags(t) for _, t in PROBES]
+
 
 def _gen_refused():
     from vf.props import C09
@@ -427,8 +438,16 @@ class History(RuleBasedStateMachine):
                             {"history": hist, "probe": {"backend": backend, "text": text, "executor": executor, "xmd": False, "shared": [base_text, tail]}})
 
     @precondition(lambda self: len(self.steps) >= 1)
-    @rule(probe=st.sampled_from(PROBES), executor=st.sampled_from(["new", "same"]))
-    def probe(self, probe, executor):
+    @rule(probe=st.sampled_from(PROBES), executor=st.sampled_from(["new", "same"]), related=st.integers(0, 1999))
+    def probe(self, probe, executor, related):
+        if related % 2 == 0:
+            # a probe that mentions something an earlier step mentions (if there is one)
+            seen = set()
+            for s_ in self.steps:
+                seen |= _tags(s_["text"])
+            cands = [p for p, tg in zip(PROBES, PROBE_TAGS) if tg & seen]
+            if cands:
+                probe = cands[(related // 2) % len(cands)]
         backend, text = probe
         xmd = "vf_docker" in text and not text.endswith(" ")
         got = self.child.call({"backend": backend, "text": text, "executor": executor, "xmd": xmd})
@@ -505,7 +524,7 @@ def run(ctx: Ctx):
     ctx.rule = RULE
     ctx.assumptions = ["'fresh process' = a process that imported the package and never translated (forked from the pristine runner)",
                        "step and probe queries come from a fixed pool that declares every kind of remembered state; Hypothesis draws the histories"]
-    total = ctx.n(480, 16000)
+    total = ctx.n(640, 16000)
     shards = 16
     payloads = [(derive_seed(ctx.seed, "C07", i), max(1, total // shards), ctx.deadline, 10 if ctx.quick else 14, not ctx.quick) for i in range(shards)]
     for st_ in run_shards("vf.props.C07", "worker", payloads):
